@@ -433,6 +433,10 @@ func (te *tableEngine) PlayerRedeemChips(joinPlayer JoinPlayer) error {
 	}
 
 	playerState := te.table.State.PlayerStates[playerIdx]
+	// a busted player who adds chips is eligible again (same as re-buy in PlayerReserve)
+	if err := te.sm.UpdatePlayerHasChips(playerState.PlayerID, true); err != nil {
+		return err
+	}
 	playerState.Bankroll += joinPlayer.RedeemChips
 
 	te.emitEvent("PlayerRedeemChips", joinPlayer.PlayerID)
